@@ -366,6 +366,119 @@ def r6(run: Run, rt):
                               f'expected `{p} - 1`', fact=f'[{p} - 1]', loc=cp.loc(u))
 
 
+# ---------------------------------------------------------------------------------------------------
+# R7: which row a scan answers with -- first equal row (exact), last row not greater (approximate, ascending)
+# ---------------------------------------------------------------------------------------------------
+_NEG = {ast.Eq: ast.NotEq, ast.NotEq: ast.Eq, ast.Lt: ast.GtE, ast.LtE: ast.Gt, ast.Gt: ast.LtE, ast.GtE: ast.Lt}
+_SWAP = {ast.Eq: ast.Eq, ast.NotEq: ast.NotEq, ast.Lt: ast.Gt, ast.LtE: ast.GtE, ast.Gt: ast.Lt, ast.GtE: ast.LtE}
+_SYM = {ast.Eq: '==', ast.NotEq: '!=', ast.Lt: '<', ast.LtE: '<=', ast.Gt: '>', ast.GtE: '>='}
+
+
+def _key_relations(test, elem: str, value: str):
+    """operators of the comparisons `key OP lookup value` inside a test (key = <elem>[0], case-normalisers ignored);
+    the conditional-expression form `A if isinstance(..) else B` contributes both arms"""
+    out = set()
+
+    def strip(e):
+        while isinstance(e, ast.Call) and isinstance(e.func, ast.Attribute) and e.func.attr in ('lower', 'casefold', 'upper') and not e.args:
+            e = e.func.value
+        return e
+    for c in ast.walk(test):
+        if isinstance(c, ast.Compare) and len(c.ops) == 1:
+            l, r = strip(c.left), strip(c.comparators[0])
+            lt, rt_ = ast.unparse(l), ast.unparse(r)
+            if lt == f'{elem}[0]' and rt_ == value:
+                out.add(type(c.ops[0]))
+            elif rt_ == f'{elem}[0]' and lt == value:
+                out.add(_SWAP[type(c.ops[0])])
+    return out
+
+
+def r7(run: Run, rt):
+    from ..paths import parent_map, path_conditions
+    for cp in rt.copies():
+        for h in ('_vlookup', '_match'):
+            fn = cp.members.get(h)
+            if fn is None:
+                run.bad('C14.R7', f'{h}[{cp.label}]', 'missing', f'helper {h} is missing', loc=cp.path)
+                continue
+            ps = [a.arg for a in fn.args.args if a.arg not in ('self', 'cls')]
+            value, area = ps[0], ps[1]
+            parents = parent_map(fn)
+            loops = [n for n in ast.walk(fn) if isinstance(n, ast.For) and area in {x.id for x in ast.walk(n.iter) if isinstance(x, ast.Name)}]
+            if not loops:
+                raise AnalysisError('C14.R7', f'{h}: no scan loop over `{area}` found')
+            seen = 0
+            for loop in loops:
+                tgt = loop.target
+                elem = tgt.elts[-1].id if isinstance(tgt, ast.Tuple) and isinstance(tgt.elts[-1], ast.Name) else \
+                    tgt.id if isinstance(tgt, ast.Name) else None
+                if elem is None:
+                    raise AnalysisError('C14.R7', f'{h}: unmodelled loop target `{ast.unparse(tgt)}`')
+                # mode of the loop / of a site inside it
+                def mode_of(node):
+                    conds = path_conditions(fn, node, parents)
+                    m = None
+                    for t, pol in conds:
+                        txt = ast.unparse(t)
+                        if h == '_vlookup' and len(ps) >= 4 and txt == ps[3]:
+                            m = 'approx' if pol else 'exact'
+                        if h == '_vlookup' and len(ps) >= 4 and txt == f'not {ps[3]}':
+                            m = 'exact' if pol else 'approx'
+                    q = parents.get(node)
+                    while q is not None:
+                        if isinstance(q, ast.match_case):
+                            if isinstance(q.pattern, ast.MatchValue) and isinstance(q.pattern.value, ast.Constant) and q.pattern.value.value == 0:
+                                m = 'exact'
+                            elif q.guard is not None:
+                                g = ast.unparse(q.guard).replace(' ', '')
+                                if g.endswith('>0'):
+                                    m = 'approx'
+                                elif g.endswith('<0'):
+                                    m = 'approx-desc'
+                        q = parents.get(q)
+                    return m
+                sites = [n for n in ast.walk(loop) if isinstance(n, ast.Return)]
+                stores = [n for n in ast.walk(loop) if isinstance(n, ast.Assign) and n.targets and isinstance(n.targets[0], ast.Name) and
+                          n.targets[0].id.startswith('last_')]
+                for node in sites + stores:
+                    conds = [c for c in path_conditions(fn, node, parents) if any(c[0] is x for x in ast.walk(loop))]
+                    rels = set()
+                    for t, pol in conds:
+                        for op in _key_relations(t, elem, value):
+                            rels.add(op if pol else _NEG[op])
+                    if not rels:
+                        continue
+                    m = mode_of(node)
+                    kind = 'return' if isinstance(node, ast.Return) else 'candidate'
+                    relsym = '/'.join(sorted(_SYM[r] for r in rels))
+                    modes = [m] if m else ['exact', 'approx']          # a site not conditioned on the mode is reached in both
+                    for mm in modes:
+                        seen += 1
+                        construct = f'{h}[{cp.label}]/{mm}/{kind} when key {relsym} value'
+                        if mm == 'exact':
+                            ok = rels == {ast.Eq} if kind == 'return' else True
+                            run.check(ok, 'C14.R7', construct, 'exact-answer',
+                                      f'{h}: in exact mode the scan answers when key {relsym} value; it must answer at the first row whose key '
+                                      f'EQUALS the value', fact='first equal row', loc=cp.loc(node))
+                        elif mm == 'approx':
+                            if kind == 'return':
+                                ok = rels == {ast.Gt}
+                                run.check(ok, 'C14.R7', construct, 'approximate-stops-early',
+                                          f'{h}: in approximate mode the scan stops and answers when key {relsym} value; on ascending keys it '
+                                          f'may only stop at the first key GREATER than the value -- stopping at an equal key returns the first '
+                                          f'of several equal rows instead of the last', fact='stops only when key > value', loc=cp.loc(node))
+                            else:
+                                ok = rels == {ast.LtE}
+                                run.check(ok, 'C14.R7', construct, 'approximate-candidate',
+                                          f'{h}: in approximate mode a row becomes the candidate when key {relsym} value; it must be every '
+                                          f'row whose key is NOT GREATER than the value (<=), so that an equal key and the last of equal keys '
+                                          f'win', fact='candidate when key <= value', loc=cp.loc(node))
+                        # descending approximate mode (-1) is outside the statement
+            if seen < 2:
+                raise AnalysisError('C14.R7', f'{h}: the scan does not compare `<row>[0]` with `{value}` in a modelled form')
+
+
 def run(run: Run):
     src = get_source()
     g = get_grammar(src)
@@ -383,6 +496,9 @@ def run(run: Run):
     run.guard('C14.R4', r4, run, src, g, em)
     run.guard('C14.R5', r5, run, rt)
     run.guard('C14.R6', r6, run, rt)
+    run.rule('C14.R7', 'exact scans answer at the first equal key; approximate scans keep the last key <= value and stop only at a greater key')
+    run.guard('C14.R7', r7, run, rt)
+    run.floor('C14.R7', 8)
     run.floor('C14.R1', 10)
     run.floor('C14.R2', 12)
     run.floor('C14.R3', 60)
